@@ -1,2 +1,508 @@
+(* C16/Lemmas.v — proofs about the model of template evaluation and subscriptions. *)
 From Common Require Import Prelude.
 From C16 Require Import Model.
+Open Scope Z_scope.
+
+(* ---- the translated tables against the language's operators ----------------------------------
+   These are the lemmas that break when an entry of OPERATORS / COMPARISONS / BOOL_OPERATORS in
+   placeholder_manager.py is swapped, dropped or replaced (gen/Tables.v is regenerated on every run). *)
+Lemma operators_bin_ok : forall o, supported_bin o = true ->
+  exists p, operators o = Some p /\ forall a b, prim_call2 p a b = py_binop o a b.
+Proof. destruct o; cbn; intro H; try discriminate; eexists; split; try reflexivity; intros; reflexivity. Qed.
+
+Lemma operators_un_ok : forall o, supported_un o = true ->
+  exists p, operators o = Some p /\ forall a, prim_call1 p a = py_unop o a.
+Proof. destruct o; cbn; intro H; try discriminate; eexists; split; try reflexivity; intros; reflexivity. Qed.
+
+Lemma comparisons_ok : forall o, supported_cmp o = true ->
+  exists p, comparisons o = Some p /\ forall a b, prim_call2 p a b = py_cmp o a b.
+Proof. destruct o; cbn; intro H; try discriminate; eexists; split; try reflexivity; intros; reflexivity. Qed.
+
+Lemma bool_operators_ok : forall o,
+  exists p, bool_operators o = Some p /\ forall a b, bprim_call p a b = py_boolop o a b.
+Proof. destruct o; cbn; eexists; split; try reflexivity; intros; reflexivity. Qed.
+
+(* ---- MPF's walk against Python's evaluation -------------------------------------------------- *)
+Definition expected (sub : bool) (p : pres) : tres :=
+  match p with
+  | PVal v => TVal v
+  | PTypeErr => TEvalErr
+  | PZeroDiv => TCrash
+  | PNameErr => TValueErr
+  | PReadErr => if sub then TEvalErr else TValueErr
+  | PCrash => TCrash
+  | PUnsup => TUnsup
+  end.
+
+Lemma fst_of_res sub r s : fst (of_res r s) = expected sub (pres_of r).
+Proof. destruct r; reflexivity. Qed.
+
+Lemma fst_with_subs s r : fst (with_subs s r) = fst r.
+Proof. destruct r as [[] ?]; reflexivity. Qed.
+
+Lemma tbind_fst_not_val r k : (forall v, fst r <> TVal v) -> tbind r k = r.
+Proof. destruct r as [[] ?]; cbn; intro H; try reflexivity. exfalso; eapply H; reflexivity. Qed.
+
+Lemma expected_val sub p v : expected sub p = TVal v -> p = PVal v.
+Proof. destruct p, sub; cbn; intro H; try discriminate; congruence. Qed.
+
+Lemma expected_not_val sub p : (forall v, p <> PVal v) -> forall v, expected sub p <> TVal v.
+Proof. intros H v E. apply expected_val in E. eapply H; eauto. Qed.
+
+(* evaluation of two operands, shared by BinOp / Compare / BoolOp *)
+Lemma two_operands sub en a b (k : value -> value -> list loc -> tres * list loc) (kp : value -> value -> pres) :
+  fst (tmpl_eval sub en a) = expected sub (py_eval en a) ->
+  fst (tmpl_eval sub en b) = expected sub (py_eval en b) ->
+  (forall va vb s, fst (k va vb s) = expected sub (kp va vb)) ->
+  fst (tbind (tmpl_eval sub en a) (fun va sa => tbind (tmpl_eval sub en b) (fun vb sb => k va vb (sa ++ sb))))
+  = expected sub (pbind (py_eval en a) (fun va => pbind (py_eval en b) (fun vb => kp va vb))).
+Proof.
+  intros Ha Hb Hk.
+  destruct (tmpl_eval sub en a) as [ta sa]; cbn [fst] in Ha; subst ta.
+  destruct (tmpl_eval sub en b) as [tb sb]; cbn [fst] in Hb; subst tb.
+  destruct (py_eval en a) as [va| | | | | |]; cbn; try reflexivity; try (destruct sub; reflexivity).
+  destruct (py_eval en b) as [vb| | | | | |]; cbn; try reflexivity; try (destruct sub; reflexivity).
+  apply Hk.
+Qed.
+
+Lemma tmpl_matches_python : forall sub en e, supported e = true ->
+  fst (tmpl_eval sub en e) = expected sub (py_eval en e).
+Proof.
+  intros sub en e. induction e; intro S; cbn [supported] in S.
+  - reflexivity.
+  - reflexivity.
+  - reflexivity.
+  - reflexivity.
+  - cbn. destruct (assoc_z x (params en)); reflexivity.
+  - cbn. destruct (sread en l); cbn; try reflexivity. destruct sub; reflexivity.
+  - apply andb_true_iff in S as [S Sb]. apply andb_true_iff in S as [So Sa].
+    destruct (operators_bin_ok o So) as [p [Hp Hc]].
+    cbn [tmpl_eval py_eval]. rewrite Hp.
+    apply (two_operands sub en e1 e2 (fun va vb s => of_res (prim_call2 p va vb) s)
+                        (fun va vb => pres_of (py_binop o va vb))); auto.
+    intros. rewrite Hc. apply fst_of_res.
+  - apply andb_true_iff in S as [So Sa].
+    destruct (operators_un_ok o So) as [p [Hp Hc]].
+    cbn [tmpl_eval py_eval]. rewrite Hp. specialize (IHe Sa).
+    destruct (tmpl_eval sub en e) as [ta sa]; cbn [fst] in IHe; subst ta.
+    destruct (py_eval en e); cbn; try reflexivity; try (destruct sub; reflexivity).
+    rewrite Hc. apply fst_of_res.
+  - apply andb_true_iff in S as [S Sb]. apply andb_true_iff in S as [So Sa].
+    destruct (comparisons_ok o So) as [p [Hp Hc]].
+    cbn [tmpl_eval py_eval]. rewrite Hp.
+    apply (two_operands sub en e1 e2 (fun va vb s => of_res (prim_call2 p va vb) s)
+                        (fun va vb => pres_of (py_cmp o va vb))); auto.
+    intros. rewrite Hc. apply fst_of_res.
+  - apply andb_true_iff in S as [Sa Sb].
+    destruct (bool_operators_ok o) as [p [Hp Hc]].
+    cbn [tmpl_eval py_eval]. rewrite Hp.
+    apply (two_operands sub en e1 e2 (fun va vb s => (TVal (bprim_call p va vb), s))
+                        (fun va vb => PVal (py_boolop o va vb))); auto.
+    intros. cbn. rewrite Hc. reflexivity.
+  - apply andb_true_iff in S as [S Sb]. apply andb_true_iff in S as [Sc Sa].
+    cbn [tmpl_eval py_eval]. specialize (IHe1 Sc). specialize (IHe2 Sa). specialize (IHe3 Sb).
+    destruct (tmpl_eval sub en e1) as [tc sc]; cbn [fst] in IHe1; subst tc.
+    destruct (py_eval en e1) as [vc| | | | | |]; cbn; try reflexivity; try (destruct sub; reflexivity).
+    rewrite fst_with_subs. destruct (truthy vc); assumption.
+Qed.
+
+Lemma eval_equals_python_allops_l : forall sub en e v, supported e = true ->
+  py_eval en e = PVal v -> fst (tmpl_eval sub en e) = TVal v.
+Proof. intros. rewrite tmpl_matches_python by assumption. rewrite H0. reflexivity. Qed.
+
+(* the value a typed template must deliver for a Python value *)
+Definition deliver (k : kind) (dflt : value) (v : value) : outcome :=
+  match v with VNone => OVal dflt | _ => convert k v end.
+
+Lemma evaluate_equals_python_l : forall k d en e v, supported e = true ->
+  py_eval en e = PVal v -> evaluate k d en e = deliver k d v.
+Proof.
+  intros. unfold evaluate. rewrite (eval_equals_python_allops_l false en e v) by assumption.
+  destruct v; reflexivity.
+Qed.
+
+Lemma type_error_gives_default_l : forall k d en e, supported e = true ->
+  (py_eval en e = PTypeErr \/ py_eval en e = PNameErr \/ py_eval en e = PReadErr) ->
+  evaluate k d en e = OVal d.
+Proof.
+  intros k d en e S H. unfold evaluate. rewrite tmpl_matches_python by assumption.
+  destruct H as [H | [H | H]]; rewrite H; reflexivity.
+Qed.
+
+Lemma type_error_gives_default_subscribed_l : forall k d en e, supported e = true ->
+  (py_eval en e = PTypeErr \/ py_eval en e = PReadErr) ->
+  fst (evaluate_and_subscribe k d en e) = convert k d.
+Proof.
+  intros k d en e S H. unfold evaluate_and_subscribe.
+  pose proof (tmpl_matches_python true en e S) as M.
+  destruct (tmpl_eval true en e) as [t s]; cbn [fst] in M; subst t.
+  destruct H as [H | H]; rewrite H; reflexivity.
+Qed.
+
+Lemma subscribed_equals_python_l : forall k d en e v, supported e = true ->
+  py_eval en e = PVal v ->
+  fst (evaluate_and_subscribe k d en e) = match v with VNone => convert k d | _ => convert k v end.
+Proof.
+  intros k d en e v S H. unfold evaluate_and_subscribe.
+  pose proof (tmpl_matches_python true en e S) as M.
+  destruct (tmpl_eval true en e) as [t s]; cbn [fst] in M; subst t.
+  rewrite H. destruct v; reflexivity.
+Qed.
+
+(* ---- subscriptions cover reads ------------------------------------------------------------------ *)
+Lemma val_inv sub en e v s : supported e = true -> tmpl_eval sub en e = (TVal v, s) -> py_eval en e = PVal v.
+Proof.
+  intros S H. pose proof (tmpl_matches_python sub en e S) as M. rewrite H in M. cbn in M.
+  symmetry in M. eapply expected_val; eauto.
+Qed.
+
+Lemma tbind_val r k v s : tbind r k = (TVal v, s) -> exists va sa, r = (TVal va, sa) /\ k va sa = (TVal v, s).
+Proof. destruct r as [[] sa]; cbn; intro H; try discriminate. eauto. Qed.
+
+Lemma of_res_val r s v s' : of_res r s = (TVal v, s') -> s' = s.
+Proof. destruct r; cbn; intro H; inversion H; reflexivity. Qed.
+
+Lemma with_subs_val s r v s' : with_subs s r = (TVal v, s') -> exists s2, r = (TVal v, s2) /\ s' = s ++ s2.
+Proof. destruct r as [[] s2]; cbn; intro H; inversion H; subst; eauto. Qed.
+
+Lemma subscriptions_cover_reads_l : forall en e v ss, supported e = true ->
+  tmpl_eval true en e = (TVal v, ss) -> incl (reads en e) ss.
+Proof.
+  intros en e. induction e; intros v ss S H; cbn [supported] in S; cbn [reads];
+    try (intros y Hy; solve [destruct Hy]).
+  - (* ERead *) cbn in H. destruct (sread en l); inversion H; subst. intros y Hy. exact Hy.
+  - (* EBin *)
+    apply andb_true_iff in S as [S Sb]. apply andb_true_iff in S as [So Sa].
+    cbn [tmpl_eval] in H. apply tbind_val in H as [va [sa [Ha H]]]. apply tbind_val in H as [vb [sb [Hb H]]].
+    rewrite (val_inv _ _ _ _ _ Sa Ha).
+    destruct (operators o); [|discriminate]. apply of_res_val in H. subst ss.
+    apply incl_app; [apply incl_appl; eapply IHe1 | apply incl_appr; eapply IHe2]; eauto.
+  - (* EUn *)
+    apply andb_true_iff in S as [So Sa].
+    cbn [tmpl_eval] in H. apply tbind_val in H as [va [sa [Ha H]]].
+    destruct (operators o); [|discriminate]. apply of_res_val in H. subst ss. eapply IHe; eauto.
+  - (* ECmp *)
+    apply andb_true_iff in S as [S Sb]. apply andb_true_iff in S as [So Sa].
+    cbn [tmpl_eval] in H. apply tbind_val in H as [va [sa [Ha H]]]. apply tbind_val in H as [vb [sb [Hb H]]].
+    rewrite (val_inv _ _ _ _ _ Sa Ha).
+    destruct (comparisons o); [|discriminate]. apply of_res_val in H. subst ss.
+    apply incl_app; [apply incl_appl; eapply IHe1 | apply incl_appr; eapply IHe2]; eauto.
+  - (* EBool *)
+    apply andb_true_iff in S as [Sa Sb].
+    cbn [tmpl_eval] in H. apply tbind_val in H as [va [sa [Ha H]]]. apply tbind_val in H as [vb [sb [Hb H]]].
+    rewrite (val_inv _ _ _ _ _ Sa Ha).
+    destruct (bool_operators o); [|discriminate]. inversion H; subst.
+    apply incl_app; [apply incl_appl; eapply IHe1 | apply incl_appr; eapply IHe2]; eauto.
+  - (* EIf *)
+    apply andb_true_iff in S as [S Sb]. apply andb_true_iff in S as [Sc Sa].
+    cbn [tmpl_eval] in H. apply tbind_val in H as [vc [sc [Hc H]]].
+    rewrite (val_inv _ _ _ _ _ Sc Hc).
+    apply with_subs_val in H as [s2 [H ->]].
+    apply incl_app; [apply incl_appl; eapply IHe1; eauto | apply incl_appr].
+    destruct (truthy vc); [eapply IHe2 | eapply IHe3]; eauto.
+Qed.
+
+(* ---- the outcome can only change when a subscribed location changes ---------------------------- *)
+Definition agree_on (s : list loc) (en en' : env) : Prop :=
+  params en = params en' /\ forall l, In l s -> sread en l = sread en' l.
+
+Definition tres_ok (r : tres) : bool := match r with TVal _ | TEvalErr => true | _ => false end.
+
+Lemma agree_app_l s1 s2 en en' : agree_on (s1 ++ s2) en en' -> agree_on s1 en en'.
+Proof. intros [P H]; split; auto. intros; apply H; apply in_or_app; auto. Qed.
+Lemma agree_app_r s1 s2 en en' : agree_on (s1 ++ s2) en en' -> agree_on s2 en en'.
+Proof. intros [P H]; split; auto. intros; apply H; apply in_or_app; auto. Qed.
+
+Lemma of_res_ok r s r' s' : of_res r s = (r', s') -> tres_ok r' = true -> s' = s.
+Proof. destruct r; cbn; intros H O; inversion H; subst; try reflexivity; discriminate. Qed.
+
+(* shape of a two-operand node whose callee [k] is environment independent *)
+Lemma two_operands_determined en en' a b (k : value -> value -> list loc -> tres * list loc) r s :
+  (forall r s, tmpl_eval true en a = (r, s) -> tres_ok r = true -> agree_on s en en' ->
+      fst (tmpl_eval true en' a) = r \/ tres_ok (fst (tmpl_eval true en' a)) = false) ->
+  (forall r s, tmpl_eval true en b = (r, s) -> tres_ok r = true -> agree_on s en en' ->
+      fst (tmpl_eval true en' b) = r \/ tres_ok (fst (tmpl_eval true en' b)) = false) ->
+  (forall va vb s1 r s, k va vb s1 = (r, s) -> tres_ok r = true -> s = s1) ->
+  (forall va vb s1 s2, fst (k va vb s1) = fst (k va vb s2)) ->
+  tbind (tmpl_eval true en a) (fun va sa => tbind (tmpl_eval true en b) (fun vb sb => k va vb (sa ++ sb))) = (r, s) ->
+  tres_ok r = true -> agree_on s en en' ->
+  let r' := fst (tbind (tmpl_eval true en' a)
+                       (fun va sa => tbind (tmpl_eval true en' b) (fun vb sb => k va vb (sa ++ sb)))) in
+  r' = r \/ tres_ok r' = false.
+Proof.
+  intros IHa IHb Hk Hk2 H O A. cbn zeta.
+  destruct (tmpl_eval true en a) as [ta sa] eqn:Ea.
+  destruct ta as [va| | | |]; cbn [tbind] in H; try (inversion H; subst; discriminate).
+  - destruct (tmpl_eval true en b) as [tb sb] eqn:Eb.
+    destruct tb as [vb| | | |]; cbn [tbind] in H; try (inversion H; subst; discriminate).
+    + pose proof (Hk _ _ _ _ _ H O) as ->.
+      destruct (IHa _ _ eq_refl eq_refl (agree_app_l _ _ _ _ A)) as [Ha' | Ha'].
+      * destruct (tmpl_eval true en' a) as [ta' sa']; cbn [fst] in Ha'; subst ta'. cbn [tbind].
+        destruct (IHb _ _ eq_refl eq_refl (agree_app_r _ _ _ _ A)) as [Hb' | Hb'].
+        -- destruct (tmpl_eval true en' b) as [tb' sb']; cbn [fst] in Hb'; subst tb'. cbn [tbind].
+           left. rewrite (Hk2 va vb (sa' ++ sb') (sa ++ sb)). rewrite H. reflexivity.
+        -- right. destruct (tmpl_eval true en' b) as [[] sb']; cbn in *; try discriminate; reflexivity.
+      * right. destruct (tmpl_eval true en' a) as [[] sa']; cbn in *; try discriminate; reflexivity.
+    + (* the right operand failed: only its subscriptions are carried by the exception *)
+      inversion H; subst r s.
+      destruct (IHb _ _ eq_refl eq_refl A) as [Hb' | Hb'].
+      * destruct (tmpl_eval true en' a) as [[] sa']; cbn; auto.
+        destruct (tmpl_eval true en' b) as [tb' sb']; cbn [fst] in Hb'; subst tb'. cbn. auto.
+      * destruct (tmpl_eval true en' a) as [[] sa']; cbn; auto.
+        destruct (tmpl_eval true en' b) as [[] sb']; cbn in *; try discriminate; auto.
+  - inversion H; subst r s.
+    destruct (IHa _ _ eq_refl eq_refl A) as [Ha' | Ha'].
+    + destruct (tmpl_eval true en' a) as [ta' sa']; cbn [fst] in Ha'; subst ta'. cbn. auto.
+    + destruct (tmpl_eval true en' a) as [[] sa']; cbn in *; try discriminate; auto.
+Qed.
+
+Lemma outcome_determined_by_subscriptions_l : forall e en en' r ss,
+  tmpl_eval true en e = (r, ss) -> tres_ok r = true -> agree_on ss en en' ->
+  fst (tmpl_eval true en' e) = r \/ tres_ok (fst (tmpl_eval true en' e)) = false.
+Proof.
+  induction e; intros en en' r ss H O A.
+  - inversion H; subst; left; reflexivity.
+  - inversion H; subst; left; reflexivity.
+  - inversion H; subst; left; reflexivity.
+  - inversion H; subst; left; reflexivity.
+  - cbn in *. destruct A as [P _]. rewrite <- P.
+    destruct (assoc_z x (params en)); inversion H; subst; auto.
+  - cbn in *. destruct A as [_ A].
+    destruct (sread en l) eqn:E; inversion H; subst; try discriminate;
+      rewrite <- (A l (or_introl eq_refl)); rewrite E; auto.
+  - cbn [tmpl_eval] in *. destruct (operators o) as [p|].
+    + eapply (two_operands_determined en en' e1 e2 (fun va vb s => of_res (prim_call2 p va vb) s)); eauto.
+      * intros. eapply of_res_ok; eauto.
+      * intros. destruct (prim_call2 p va vb); reflexivity.
+    + eapply (two_operands_determined en en' e1 e2 (fun va vb s => (TCrash, []))); eauto.
+      intros ? ? ? ? ? E O'. inversion E; subst; discriminate.
+  - cbn [tmpl_eval] in *.
+    destruct (tmpl_eval true en e) as [ta sa] eqn:Ea.
+    destruct ta as [va| | | |]; cbn [tbind] in H; try (inversion H; subst; discriminate).
+    + assert (ss = sa) as ->.
+      { destruct (operators o); [eapply of_res_ok; eauto | inversion H; subst; discriminate]. }
+      destruct (IHe _ en' _ _ Ea eq_refl A) as [Ha' | Ha'].
+      * destruct (tmpl_eval true en' e) as [ta' sa']; cbn [fst] in Ha'; subst ta'. cbn [tbind].
+        left. destruct (operators o); [|inversion H; subst; reflexivity].
+        destruct (prim_call1 p va); cbn in *; inversion H; subst; reflexivity.
+      * right. destruct (tmpl_eval true en' e) as [[] sa']; cbn in *; try discriminate; reflexivity.
+    + inversion H; subst r ss.
+      destruct (IHe _ en' _ _ Ea eq_refl A) as [Ha' | Ha'].
+      * destruct (tmpl_eval true en' e) as [ta' sa']; cbn [fst] in Ha'; subst ta'. cbn. auto.
+      * destruct (tmpl_eval true en' e) as [[] sa']; cbn in *; try discriminate; auto.
+  - cbn [tmpl_eval] in *. destruct (comparisons o) as [p|].
+    + eapply (two_operands_determined en en' e1 e2 (fun va vb s => of_res (prim_call2 p va vb) s)); eauto.
+      * intros. eapply of_res_ok; eauto.
+      * intros. destruct (prim_call2 p va vb); reflexivity.
+    + eapply (two_operands_determined en en' e1 e2 (fun va vb s => (TCrash, []))); eauto.
+      intros ? ? ? ? ? E O'. inversion E; subst; discriminate.
+  - cbn [tmpl_eval] in *. destruct (bool_operators o) as [p|].
+    + eapply (two_operands_determined en en' e1 e2 (fun va vb s => (TVal (bprim_call p va vb), s))); eauto.
+      intros ? ? ? ? ? E O'. inversion E; subst; reflexivity.
+    + eapply (two_operands_determined en en' e1 e2 (fun va vb s => (TCrash, []))); eauto.
+      intros ? ? ? ? ? E O'. inversion E; subst; discriminate.
+  - cbn [tmpl_eval] in *.
+    destruct (tmpl_eval true en e1) as [tc sc] eqn:Ec.
+    destruct tc as [vc| | | |]; cbn [tbind] in H; try (inversion H; subst; discriminate).
+    + set (br := if truthy vc then e2 else e3).
+      assert (Hbr : with_subs sc (tmpl_eval true en br) = (r, ss)).
+      { subst br. destruct (truthy vc); exact H. }
+      destruct (tmpl_eval true en br) as [tb sb] eqn:Eb.
+      assert (ss = sc ++ sb /\ tb = r) as [-> ->].
+      { destruct tb; cbn in Hbr; inversion Hbr; subst; try discriminate; auto. }
+      destruct (IHe1 _ en' _ _ Ec eq_refl (agree_app_l _ _ _ _ A)) as [Hc' | Hc'].
+      * destruct (tmpl_eval true en' e1) as [tc' sc']; cbn [fst] in Hc'; subst tc'. cbn [tbind].
+        rewrite fst_with_subs.
+        assert (IHbr : fst (tmpl_eval true en' br) = r \/ tres_ok (fst (tmpl_eval true en' br)) = false).
+        { subst br. destruct (truthy vc); [eapply IHe2 | eapply IHe3]; eauto using agree_app_r. }
+        subst br. destruct (truthy vc); exact IHbr.
+      * right. destruct (tmpl_eval true en' e1) as [[] sc']; cbn in *; try discriminate; reflexivity.
+    + inversion H; subst r ss.
+      destruct (IHe1 _ en' _ _ Ec eq_refl A) as [Hc' | Hc'].
+      * destruct (tmpl_eval true en' e1) as [tc' sc']; cbn [fst] in Hc'; subst tc'. cbn. auto.
+      * destruct (tmpl_eval true en' e1) as [[] sc']; cbn in *; try discriminate; auto.
+Qed.
+
+(* ---- change histories: the subscriber never holds a stale value --------------------------------- *)
+Lemma value_eqb_eq a b : value_eqb a b = true -> a = b.
+Proof.
+  destruct a, b; cbn; intro H; try discriminate; try reflexivity.
+  - apply Bool.eqb_prop in H. congruence.
+  - apply Z.eqb_eq in H. congruence.
+  - apply zs_eqb_spec in H. congruence.
+Qed.
+
+Lemma loc_eqb_eq x y : loc_eqb x y = true <-> x = y.
+Proof.
+  split.
+  - destruct x, y; cbn; intro H; try discriminate;
+      repeat (apply andb_true_iff in H as [H ?]);
+      repeat match goal with E : zs_eqb _ _ = true |- _ => apply zs_eqb_spec in E end; congruence.
+  - intros <-. destruct x; cbn; repeat (apply andb_true_iff; split); apply zs_eqb_spec; reflexivity.
+Qed.
+
+Lemma loc_eqb_neq x y : x <> y -> loc_eqb x y = false.
+Proof. intro N. destruct (loc_eqb x y) eqn:E; [apply loc_eqb_eq in E; contradiction | reflexivity]. Qed.
+
+Lemma sread_set_other en l r l' : l' <> l -> sread (set_store l r en) l' = sread en l'.
+Proof.
+  intro N. unfold sread, set_store. cbn [store in_game lookup_loc].
+  rewrite (loc_eqb_neq _ _ N). reflexivity.
+Qed.
+
+Definition rd_eqb (a b : rd) : bool :=
+  match a, b with
+  | RVal x, RVal y => value_eqb x y
+  | RValErr, RValErr | RCrash, RCrash => true
+  | _, _ => false
+  end.
+Lemma rd_eqb_eq a b : rd_eqb a b = true -> a = b.
+Proof. destruct a, b; cbn; intro H; try discriminate; try reflexivity. apply value_eqb_eq in H. congruence. Qed.
+
+(* a change is honest when it is announced or leaves what a template reads at that location as it was *)
+Definition honest (en : env) (c : change) : bool :=
+  announces en c || rd_eqb (sread (apply_change en c) (changed_loc c)) (sread en (changed_loc c)).
+
+Fixpoint honest_run (en : env) (cs : list change) : bool :=
+  match cs with
+  | [] => true
+  | c :: cs' => honest en c && honest_run (apply_change en c) cs'
+  end.
+
+Fixpoint hfinal (k : kind) (d : value) (e : expr) (st : env * subscriber) (cs : list change) : env * subscriber :=
+  match cs with
+  | [] => st
+  | c :: cs' => hfinal k d e (fst (hstep k d e st c)) cs'
+  end.
+
+Definition outcome_of (k : kind) (d : value) (t : tres) : outcome :=
+  match t with
+  | TVal VNone | TEvalErr => convert k d
+  | TVal v => convert k v
+  | TValueErr | TCrash => OAssert
+  | TUnsup => OUnsup
+  end.
+
+Lemma eas_fst k d en e : fst (evaluate_and_subscribe k d en e) = outcome_of k d (fst (tmpl_eval true en e)).
+Proof. unfold evaluate_and_subscribe. destruct (tmpl_eval true en e) as [[v| | | |] s]; try destruct v; reflexivity. Qed.
+
+Lemma eas_snd k d en e r s : tmpl_eval true en e = (r, s) -> tres_ok r = true ->
+  snd (evaluate_and_subscribe k d en e) = s.
+Proof. unfold evaluate_and_subscribe. intros -> O. destruct r as [v| | | |]; try destruct v; try discriminate; reflexivity. Qed.
+
+Lemma outcome_of_not_ok k d t : tres_ok t = false -> forall v, outcome_of k d t <> OVal v.
+Proof. destruct t; cbn; intros H w; try discriminate. Qed.
+
+Definition fresh (k : kind) (d : value) (e : expr) (en : env) (sb : subscriber) : Prop :=
+  (exists en0 r, tmpl_eval true en0 e = (r, subs sb) /\ tres_ok r = true /\
+                 last sb = outcome_of k d r /\ agree_on (subs sb) en0 en)
+  \/ (forall v, last sb <> OVal v).
+
+Lemma agree_refl s en : agree_on s en en.
+Proof. split; auto. Qed.
+
+Lemma fresh_subscribe_now k d e en : fresh k d e en (subscribe_now k d en e).
+Proof.
+  unfold subscribe_now.
+  destruct (evaluate_and_subscribe k d en e) as [o s] eqn:E.
+  pose proof (eas_fst k d en e) as F. rewrite E in F. cbn [fst] in F.
+  destruct (tmpl_eval true en e) as [r s0] eqn:T. cbn [fst] in F.
+  destruct (tres_ok r) eqn:O.
+  - left. exists en, r. cbn [subs last].
+    pose proof (eas_snd k d en e r s0 T O) as Sn. rewrite E in Sn. cbn [snd] in Sn. subst s.
+    repeat split; auto.
+  - right. cbn [last]. subst o. apply outcome_of_not_ok; assumption.
+Qed.
+
+Lemma existsb_loc_in l s : existsb (loc_eqb l) s = false -> ~ In l s.
+Proof.
+  intros H I. assert (existsb (loc_eqb l) s = true); [|congruence].
+  apply existsb_exists. exists l. split; auto. apply loc_eqb_eq. reflexivity.
+Qed.
+
+Lemma fresh_step k d e en sb c : fresh k d e en sb -> honest en c = true ->
+  fresh k d e (fst (fst (hstep k d e (en, sb) c))) (snd (fst (hstep k d e (en, sb) c))).
+Proof.
+  intros F Hc. unfold hstep.
+  destruct (announces en c && existsb (loc_eqb (changed_loc c)) (subs sb)) eqn:Fire; cbn [fst snd].
+  - apply fresh_subscribe_now.
+  - destruct F as [[en0 [r [T [O [L [P A]]]]]] | D]; [|right; assumption].
+    left. exists en0, r. repeat split; auto.
+    intros l I. rewrite (A l I).
+    destruct (loc_eqb l (changed_loc c)) eqn:E.
+    + apply loc_eqb_eq in E. subst l.
+      apply andb_false_iff in Fire as [Fa | Fe].
+      * unfold honest in Hc. rewrite Fa in Hc. cbn in Hc. apply rd_eqb_eq in Hc. symmetry. exact Hc.
+      * exfalso. eapply existsb_loc_in; eauto.
+    + unfold apply_change. symmetry. apply sread_set_other.
+      intro Q. subst l. rewrite (proj2 (loc_eqb_eq _ _) eq_refl) in E. discriminate.
+Qed.
+
+Lemma fresh_run k d e : forall cs en sb, fresh k d e en sb -> honest_run en cs = true ->
+  fresh k d e (fst (hfinal k d e (en, sb) cs)) (snd (hfinal k d e (en, sb) cs)).
+Proof.
+  induction cs as [|c cs IH]; intros en sb F H; cbn [hfinal honest_run] in *.
+  - exact F.
+  - apply andb_true_iff in H as [Hc Hr].
+    pose proof (fresh_step k d e en sb c F Hc) as F'.
+    destruct (hstep k d e (en, sb) c) as [[en' sb'] fired] eqn:E. cbn [fst snd] in *.
+    assert (en' = apply_change en c) as ->.
+    { unfold hstep in E. destruct (announces en c && _); inversion E; reflexivity. }
+    apply IH; assumption.
+Qed.
+
+Lemma no_stale_value_l : forall k d e en cs, honest_run en cs = true ->
+  let st := hfinal k d e (en, subscribe_now k d en e) cs in
+  (forall v, last (snd st) <> OVal v)                                             (* the loop died with an exception *)
+  \/ fst (evaluate_and_subscribe k d (fst st) e) = last (snd st)                 (* delivered value is current *)
+  \/ (forall v, fst (evaluate_and_subscribe k d (fst st) e) <> OVal v).          (* evaluating now raises *)
+Proof.
+  intros k d e en cs H. cbn zeta.
+  pose proof (fresh_run k d e cs en _ (fresh_subscribe_now k d e en) H) as F.
+  destruct (hfinal k d e (en, subscribe_now k d en e) cs) as [en' sb']. cbn [fst snd] in *.
+  destruct F as [[en0 [r [T [O [L A]]]]] | D]; [|left; assumption].
+  right. rewrite eas_fst.
+  destruct (outcome_determined_by_subscriptions_l e en0 en' r (subs sb') T O A) as [E | E].
+  - left. rewrite E. symmetry. exact L.
+  - right. apply outcome_of_not_ok. exact E.
+Qed.
+
+(* an unannounced change makes the subscriber stale: setting a player variable to None posts no event *)
+Definition stale_witness_env := mkEnv [] [] true.
+Definition stale_witness_changes := [CSetPlayer [112] (VInt 5); CSetPlayer [112] VNone].
+Lemma stale_after_unannounced_change_refuted_l :
+  let e := ERead (LPlayer [112]) in
+  let st := hfinal KRaw (VInt 77) e (stale_witness_env, subscribe_now KRaw (VInt 77) stale_witness_env e) stale_witness_changes in
+  honest_run stale_witness_env stale_witness_changes = false /\
+  last (snd st) = OVal (VInt 5) /\ fst (evaluate_and_subscribe KRaw (VInt 77) (fst st) e) = OVal (VInt 77).
+Proof. vm_compute. repeat split. Qed.
+
+(* examples: the hypotheses are satisfiable on non-trivial inputs *)
+Definition ex_env := mkEnv [([112], VInt 3)] [(LMachine [97], RVal (VInt 4)); (LSetting [115], RVal (VStr [108;111]))] false.
+(* (machine.a + p) * 2 if settings.s == "lo" else -machine.b *)
+Definition ex_expr :=
+  EIf (ECmp CEq (ERead (LSetting [115])) (EStr [108;111]))
+      (EBin KMult (EBin KAdd (ERead (LMachine [97])) (EName [112])) (ENum 2))
+      (EUn KUSub (ERead (LMachine [98]))).
+Lemma ex_supported : supported ex_expr = true. Proof. reflexivity. Qed.
+Lemma ex_value : py_eval ex_env ex_expr = PVal (VInt 14). Proof. vm_compute. reflexivity. Qed.
+Lemma ex_tmpl : tmpl_eval true ex_env ex_expr = (TVal (VInt 14), [LSetting [115]; LMachine [97]]).
+Proof. vm_compute. reflexivity. Qed.
+(* -machine.b with b unset: TypeError in Python *)
+Lemma ex_type_error : py_eval ex_env (EUn KUSub (ERead (LMachine [98]))) = PTypeErr. Proof. vm_compute. reflexivity. Qed.
+Definition ex_changes := [CSetMachine [97] (VInt 5); CSetSetting [115] (VStr [104;105]); CSetMachine [98] (VInt 9);
+                          CRemoveMachine [98]; CSetMachine [97] (VInt 5)].
+Lemma ex_honest : honest_run ex_env ex_changes = true. Proof. vm_compute. reflexivity. Qed.
+Lemma ex_history : hrun KRaw (VInt 77) ex_expr (ex_env, subscribe_now KRaw (VInt 77) ex_env ex_expr) ex_changes
+  = [(true, OVal (VInt 16)); (true, OVal (VInt 77)); (true, OVal (VInt (-9))); (true, OVal (VInt 77)); (false, OVal (VInt 77))].
+Proof. vm_compute. reflexivity. Qed.
+
+Lemma stale_after_unannounced_change_refuted_ex :
+  exists k d e en cs,
+    let st := hfinal k d e (en, subscribe_now k d en e) cs in
+    honest_run en cs = false /\
+    last (snd st) = OVal (VInt 5) /\ fst (evaluate_and_subscribe k d (fst st) e) = OVal (VInt 77).
+Proof.
+  exists KRaw, (VInt 77), (ERead (LPlayer [112])), stale_witness_env, stale_witness_changes.
+  exact stale_after_unannounced_change_refuted_l.
+Qed.
